@@ -27,7 +27,10 @@ WithDefaults(f) == [k \in DOMAIN f |->
 StoreClauses(pre, e) ==
   LET f1 == WithDefaults(pre)
   IN [
-  C19_StoreTotal |-> e.out = "ok",
+  C19_StoreTotal |-> e.op = "setbad" \/ e.out = "ok",
+  \* a value that cannot be written is refused and nothing is lost
+  C19_RefusedSetKeepsFile |-> (e.op = "setbad")
+                                => (e.out = "refused" /\ e.post = f1),
   C19_SetStored  |-> (e.op = "set" /\ e.out = "ok")
                        => e.post = AfterSet(f1, e.key, e.val),
   C19_GetReturnsStored |->
